@@ -27,6 +27,7 @@ VERIF = os.path.dirname(os.path.dirname(os.path.abspath(__file__)))
 LEAN = os.path.join(VERIF, "lean")
 DRV = os.path.join(LEAN, ".lake", "build", "bin", "qspdrv")
 REPO = os.environ.get("PYQSP_REPO", "/repo")
+OUT = os.environ.get("VERIF_OUT", os.path.dirname(os.path.dirname(os.path.abspath(__file__))))     # evidence/ and replays/ go here (scratch dir when testing seeded changes)
 AXIOM_WHITELIST = {"propext", "Classical.choice", "Quot.sound"}
 FORBIDDEN = re.compile(r"\b(sorry|admit|native_decide|bv_decide|implemented_by|unsafe)\b|^\s*axiom\s|maxHeartbeats\s+0", re.M)
 
@@ -421,9 +422,9 @@ class Ctx:
                     self.known_hits.append((signature, f.get("what", what)))
                 self.count("known_finding_hits")
                 return False
-        os.makedirs(os.path.join(VERIF, "replays", self.prop), exist_ok=True)
+        os.makedirs(os.path.join(OUT, "replays", self.prop), exist_ok=True)
         h = hashlib.sha1((signature + json.dumps(replay, sort_keys=True, default=str)).encode()).hexdigest()[:12]
-        path = os.path.join(VERIF, "replays", self.prop, "%s_%s.json" % (self.tier, h))
+        path = os.path.join(OUT, "replays", self.prop, "%s_%s.json" % (self.tier, h))
         replay = dict(replay)
         replay.update({"property": self.prop, "signature": signature, "what": what,
                        "seed": self.seed, "tier": self.tier, "repo": repo_state(),
@@ -477,8 +478,8 @@ class Ctx:
             "wall_s": round(wall, 2),
             "violations": len(self.violations),
         }
-        os.makedirs(os.path.join(VERIF, "evidence"), exist_ok=True)
-        with open(os.path.join(VERIF, "evidence", self.prop + ".json"), "w") as fh:
+        os.makedirs(os.path.join(OUT, "evidence"), exist_ok=True)
+        with open(os.path.join(OUT, "evidence", self.prop + ".json"), "w") as fh:
             json.dump(ev, fh, indent=1, default=str)
         for sig, what in self.known_hits:
             print("KNOWN-FINDING: property=%s %s [%s]" % (self.prop, what, sig))
